@@ -229,6 +229,13 @@ SrcWriteFree(w) == /\ w \in DOMAIN wr /\ wr' = [wr EXCEPT ![w].sorted = FALSE]
                    /\ UNCHANGED <<disk, rd, us, mg, so, fs, it, pl, judge>>
 SrcWriteC(c, w, ok) == IF c.ord \/ Strict(c.t) THEN SrcWriteOn(StripN(c.t), w, ok) ELSE SrcWriteFree(w)
 SrcWrite(src, w, ok) == SrcWriteC(Content(src), w, ok)
+\* the mtbl_merge tool (C04, additional observation path): merges table files with the user's merge function into a new file
+MergeTool(inputs, out, ok) ==
+    /\ \A j \in 1..Len(inputs) : inputs[j] \in DOMAIN disk /\ disk[inputs[j]].kind = "table"
+    /\ ok
+    /\ disk' = Upd(disk, out, [kind |-> "table", t |-> StripN(MergeFold([j \in 1..Len(inputs) |-> disk[inputs[j]].t]))])
+    /\ UNCHANGED <<wr, rd, us, mg, so, fs, it, pl, judge>>
+
 \* ------------------------------------------------------------------ sorter (C06)
 \* so[s] = [adds, merge, failtok, iterating, maxmem, tmpdir, pool, buf (payload bytes buffered since the last spill)]
 SInit(s, maxmem, tmpdir, merge, failtok, pool) ==
